@@ -760,8 +760,11 @@ func (g *Gen) stmt(depth int) []Stmt {
 	case 38:
 		return g.argCaptured(d)
 	case 39:
-		if g.R.Bool() {
+		switch g.R.Intn(3) {
+		case 0:
 			return g.closureIdentity(d)
+		case 1:
+			return g.localFuncScope(d)
 		}
 		return g.nestedBlockClosure(d)
 	case 40:
@@ -918,7 +921,9 @@ func (g *Gen) multiAssign(d int) []Stmt {
 	for b == a {
 		b = locals[g.R.Intn(len(locals))]
 	}
-	switch g.R.Pick(30, 20, 20, 15, 15, 10) {
+	switch g.R.Pick(30, 20, 20, 15, 15, 10, 30) {
+	case 6:
+		return g.mixedAssign(d)
 	case 0:
 		g.use("multiassign-swap")
 		return []Stmt{&Assign{LHS: []Expr{g.ref(a), g.ref(b)}, Es: []Expr{g.ref(b), g.ref(a)}}, emit(g.ref(a), g.ref(b))}
@@ -968,6 +973,81 @@ func (g *Gen) multiAssign(d int) []Stmt {
 			return []Stmt{&Assign{LHS: []Expr{g.ref(a), g.ref(b)}, Es: []Expr{g.callExpr(f, 0)}}, emit(g.ref(a), g.ref(b))}
 		}
 		return []Stmt{&Assign{LHS: []Expr{g.ref(a), g.ref(b)}, Es: []Expr{g.exprInt(d), g.exprInt(d), g.exprInt(d)}}}
+	}
+}
+
+// mixedAssign: one assignment with table-field and local targets whose right-hand sides are the
+// same locals (read before any store), a local that is both the table of one target and a target
+// itself, and a call on the right that changes a local read earlier in the same list.
+func (g *Gen) mixedAssign(d int) []Stmt {
+	ma, mb, mt, mu := g.fresh("ma"), g.fresh("mb"), g.fresh("mt"), g.fresh("mu")
+	va, vb, vt, vu := &Var{Name: ma}, &Var{Name: mb}, &Var{Name: mt}, &Var{Name: mu}
+	pre := []Stmt{&Local{Names: []string{ma, mb}, Es: []Expr{num(float64(1 + g.R.Intn(9))), num(float64(11 + g.R.Intn(9)))}},
+		&Local{Names: []string{mt}, Es: []Expr{&Table{}}}, &Local{Names: []string{mu}, Es: []Expr{vt}}}
+	fx, fy := &Index{E: vt, K: str("x")}, &Index{E: vt, K: str("y")}
+	ux, uy := &Index{E: vu, K: str("x")}, &Index{E: vu, K: str("y")}
+	switch g.R.Pick(40, 25, 20, 15) {
+	case 0:
+		g.use("multiassign-mixed")
+		// a random interleaving of field and local targets, each value one of the locals
+		targets := []Expr{fx, va, fy, vb}
+		if g.R.Bool() {
+			targets = []Expr{va, fx, vb, fy}
+		}
+		n := 2 + g.R.Intn(3)
+		for i := len(targets) - 1; i > 0; i-- {
+			j := g.R.Intn(i + 1)
+			targets[i], targets[j] = targets[j], targets[i]
+		}
+		targets = targets[:n]
+		vals := make([]Expr, n)
+		for i := range vals {
+			switch g.R.Intn(4) {
+			case 0:
+				vals[i] = va
+			case 1:
+				vals[i] = vb
+			case 2:
+				vals[i] = &Bin{Op: "+", A: []Expr{va, vb}[g.R.Intn(2)], B: num(1)}
+			default:
+				vals[i] = num(float64(100 + g.R.Intn(9)))
+			}
+		}
+		if g.R.Intn(3) == 0 {
+			vals = append(vals, va) // an extra value, evaluated and dropped
+		}
+		return append(pre, &Assign{LHS: targets, Es: vals}, emit(ux, va, uy, vb))
+	case 1:
+		g.use("multiassign-table-retargeted")
+		// the table of one target is itself assigned by the statement
+		var nv Expr = &Nil{}
+		if g.R.Bool() {
+			nv = &Table{}
+		}
+		lhs, es := []Expr{fx, vt}, []Expr{va, nv}
+		if g.R.Bool() {
+			lhs, es = []Expr{vt, fy}, []Expr{nv, vb}
+		}
+		if g.R.Bool() {
+			lhs, es = []Expr{fx, vt, fy}, []Expr{va, nv, vb}
+		}
+		return append(pre, &Assign{LHS: lhs, Es: es}, emit(ux, uy, &Bin{Op: "==", A: vt, B: vu}))
+	case 2:
+		g.use("multiassign-call-changes-local")
+		mg := g.fresh("mg")
+		fn := &LocalFunc{X: mg, F: &Func{Body: []Stmt{
+			&Assign{LHS: []Expr{va}, Es: []Expr{&Bin{Op: "+", A: va, B: num(100)}}}, &Return{Es: []Expr{num(2)}}}}}
+		lhs := []Expr{fx, fy}
+		es := []Expr{va, &Call{F: &Var{Name: mg}}}
+		if g.R.Bool() {
+			lhs, es = []Expr{fx, vb, fy}, []Expr{va, va, &Call{F: &Var{Name: mg}}}
+		}
+		return append(pre, fn, &Assign{LHS: lhs, Es: es}, emit(ux, uy, va, vb))
+	default:
+		g.use("multiassign-key-and-value-local")
+		// t[a], a = a, k : key and value are the local the statement overwrites
+		return append(pre, &Assign{LHS: []Expr{&Index{E: vt, K: va}, va}, Es: []Expr{va, vb}},
+			emit(&Index{E: vu, K: num(1)}, &Un{Op: "#", A: vu}, va))
 	}
 }
 
